@@ -84,7 +84,7 @@ pub fn generate(tier: &str, rng: &mut Rng) -> (Vec<String>, bool) {
     let mut out = vec![];
     let thorough = tier == "thorough";
     let (alpha_v, alpha_p, maxlen): (&[&str], &[&str], usize) =
-        if thorough { (&["_", "-2", "0", "1", "3"], &["-2", "0", "1", "3"], 6) } else { (&["_", "0", "1", "3"], &["0", "1", "3"], 4) };
+        if thorough { (&["_", "-2", "0", "1", "3"], &["-2", "0", "1", "3"], 5) } else { (&["_", "0", "1", "3"], &["0", "1", "3"], 4) };
     // exhaustive-small stream
     for len in 0..=maxlen {
         let sv = all_series(alpha_v, len);
@@ -181,6 +181,6 @@ pub fn generate(tier: &str, rng: &mut Rng) -> (Vec<String>, bool) {
 pub fn rule(tier: &str) -> String {
     format!("18 rolling feature entry points + ts_fdiff/ts_vfdiff on Vec input; exhaustive stream: every series over {} up to length {}, every window 1..=len+2, every min_periods in {{omitted}} U 0..=w, element/output types rotated over f64,f32,i32,i64,Option<f64>,Option<i32> x f64,f32,Option<f64>,i32; random stream: lengths up to {}, values k/8 with |k|<=64, 9 null patterns. Every output position is compared, so every prefix history is covered. non-trivial = distinct request with >= 2 input elements and >= 1 non-null output.",
         if tier == "thorough" { "{null,-2,0,1,3}" } else { "{null,0,1,3}" },
-        if tier == "thorough" { 6 } else { 4 },
+        if tier == "thorough" { 5 } else { 4 },
         if tier == "thorough" { 400 } else { 60 })
 }
